@@ -115,7 +115,7 @@ func genPlaylistMedia(r *repo) string {
 	if sw == nil {
 		fatalf("playlist media: the tagless switch inside the for loop of Media.Unmarshal was not found")
 	}
-	b.WriteString("/-- `switch { case … }` of `Media.Unmarshal` (" + p.fset.Position(sw.Pos()).String() + "): (test, literal, body starts with `line = line[len(literal):]`) -/\n")
+	b.WriteString("/-- `switch { case … }` of `Media.Unmarshal` (" + relPos(r, p, sw.Pos()) + "): (test, literal, body starts with `line = line[len(literal):]`) -/\n")
 	b.WriteString("def dispatch : List (Kind × List Char × Bool) := [\n")
 	var rows []string
 	for _, cc := range sw.Body.List {
@@ -222,7 +222,7 @@ func genPlaylistMedia(r *repo) string {
 	// ---- 4. Media.Marshal as an event list
 	mm := p.mustFunc("Media", "Marshal")
 	b.WriteString("inductive Ev where\n  | lit (s : List Char)      -- a string literal\n  | call (recv : String)     -- `recv.marshal()`\n  | fmtInt (arg : String)    -- `strconv.FormatInt(int64(arg), 10)`\n  | cond (e : String)        -- `if e {` / `for … range e {`\n  deriving DecidableEq, Repr\n\n")
-	b.WriteString("/-- `Media.Marshal` (" + p.fset.Position(mm.Pos()).String() + ") in source order -/\n")
+	b.WriteString("/-- `Media.Marshal` (" + relPos(r, p, mm.Pos()) + ") in source order -/\n")
 	b.WriteString("def mediaMarshal : List Ev := [\n")
 	rows = nil
 	var walk func(n ast.Node) bool
@@ -332,6 +332,12 @@ func genPlaylistMedia(r *repo) string {
 	b.WriteString("def formatFloatArgs : List (String × List String) := [\n" + strings.Join(ff, ",\n") + "]\n\n")
 	b.WriteString("end Hls.Gen.PlaylistMedia\n")
 	return b.String()
+}
+
+// relPos is file:line relative to the repository root (so that the generated text does not depend on where the tree is)
+func relPos(r *repo, p *pkgSrc, pos token.Pos) string {
+	ps := p.fset.Position(pos)
+	return strings.TrimPrefix(strings.TrimPrefix(ps.Filename, r.root), "/") + ":" + strconv.Itoa(ps.Line)
 }
 
 func isSelCall2(n ast.Node, pkg, name string) ([]ast.Expr, bool) {
